@@ -94,7 +94,7 @@ std::string unescape(const std::string& s);
 	X(model_too_big) X(known_finding_hits) X(repeat_checks) X(twin_checks) X(law_checks) \
 	X(sim_pairs_checked) X(iter_steps) X(iter_interleaved_mutations) X(mtbdd_values_checked) \
 	X(mtbdd_canon_checks) X(mtbdd_baseline_checks) X(corpus_ops) X(corpus_inconclusive) \
-	X(lang_nonempty) X(lang_empty) X(reread_handles) X(operand_rechecks)
+	X(lang_nonempty) X(lang_empty) X(reread_handles) X(operand_rechecks) X(budget_inconclusive)
 
 enum Counter {
 #define X(n) c_##n,
@@ -110,6 +110,7 @@ static const size_t SHM_HASHES = 4096;
 struct Shm {
 	volatile int32_t  status;           // 0 running, 1 finished ok, 2 violation, 3 harness error
 	volatile int32_t  cur_step;
+	volatile int32_t  budget_policy;    // 0: exhausting the step's tick budget is a violation (hang); 1: inconclusive
 	char     cur_op[64];
 	char     oracle[96];
 	char     site[160];
@@ -133,6 +134,11 @@ void note_case(uint64_t hash);         // a distinct non-trivial case
 void set_sample(const std::string& s); // first sample of a run wins
 void observe(uint64_t v);              // mix into the observable digest
 void observe(const std::string& s);
+// Name the call site of the API call that follows (used for crash / hang reports) and say what
+// exhausting the tick budget means there: a hang (violation) or, for algorithms that are
+// legitimately exponential, an inconclusive run.
+enum BudgetPolicy { BUDGET_HANG = 0, BUDGET_INCONCLUSIVE = 1 };
+void api_site(const std::string& site, BudgetPolicy pol = BUDGET_HANG, uint64_t budget = 0);
 
 // ---------------------------------------------------------------- known findings
 struct KnownFinding { std::string property, oracle, site, text; bool fixed = false; };
